@@ -60,6 +60,16 @@ def plan(tier, seed):
         else:
             continue
         P.add("stack", desc=d, depth=1, dt="complex128")
+    # expression re-use histories: operators built from an expression S must leave S (and
+    # the leaves) acting as before - S = A + B; S + C; S - D; 2 * S; S * A; stacks of shared
+    # parts - and S is re-checked after each of them has been built and applied
+    rng = P.rng("reuse")
+    for i in range(150 if tier == "quick" else 2500):
+        shape = [int(rng.integers(1, 5)) for _ in range(int(rng.integers(1, 4)))]
+        leaves = [lops.gen_endo(rng, shape, 4) for _ in range(5)]
+        P.add("reuse", leaves=leaves, shape=shape, base=pick(rng, ["Add", "Sub", "Compose",
+                                                                   "Scale", "Hstack", "Vstack"]),
+              order=[int(v) for v in rng.permutation(6)], fortran=bool(rng.random() < 0.3))
     rng = P.rng("misfit")
     nm = 200 if tier == "quick" else 3000
     for i in range(nm):
@@ -221,8 +231,97 @@ def _misfit(kind, rng):
     raise ValueError(kind)
 
 
+def run_reuse(case):
+    import sigpy as sp
+    L = sp.linop
+    rng = rng_for(case)
+    shape = tuple(case["shape"])
+    ops = [lops.build(d) for d in case["leaves"]]
+    A, B, C, D, E = ops
+    x = crandn(rng, shape)
+    if case["fortran"] and x.ndim >= 2:
+        x = np.asfortranarray(x)
+    leaf_out = [np.asarray(o(x)) for o in ops]
+    a, b, c, d, e = leaf_out
+    base = case["base"]
+    two = 2.0 - 0.5j
+    if base == "Add":
+        S, ref = A + B, a + b
+    elif base == "Sub":
+        S, ref = A - B, a - b
+    elif base == "Compose":
+        S, ref = A * B, np.asarray(A(np.asarray(B(x))))
+    elif base == "Scale":
+        S, ref = two * A, two * a
+    elif base == "Hstack":
+        S = L.Hstack([A, B], axis=0)
+        ref = None
+    else:
+        S = L.Vstack([A, B], axis=None)
+        ref = np.concatenate([a.ravel(), b.ravel()])
+    sig = "reuse|%s|%dd|%s" % (base, len(shape), "F" if case["fortran"] else "C")
+    wit = dict(case)
+    xs = x if base != "Hstack" else np.concatenate([x, crandn(rng, shape)], axis=0)
+    if ref is None:
+        ref = a + np.asarray(B(xs[shape[0]:]))
+    tol = 1e-10
+
+    def check(tag):
+        got = np.asarray(S(xs))
+        sc = nrm(ref) + 1e-3 * nrm(xs)
+        if got.shape != ref.shape or nrm(got - ref) > tol * sc:
+            return violated(sig, "the expression S = %s no longer acts as the matrix expression "
+                            "of its parts %s: rel %.3g" % (
+                                base, tag, nrm(got - ref) / max(sc, 1e-300)
+                                if got.shape == ref.shape else float("inf")),
+                            wit, mech="reuse:" + base)
+        for k, (o, want) in enumerate(zip(ops, leaf_out)):
+            g2 = np.asarray(o(x))
+            if g2.shape != want.shape or nrm(g2 - want) > tol * (nrm(want) + 1e-3 * nrm(x)):
+                return violated(sig, "leaf %d (%r) no longer acts as before %s" % (k, o, tag),
+                                wit, mech="reuse-leaf:" + base)
+        return None
+    r = check("right after construction")
+    if r:
+        return r
+    same = base not in ("Hstack", "Vstack")
+    builders = [
+        ("after S + C was built", lambda: (S + (C if same else S))),
+        ("after S - D was built", lambda: (S - (D if same else S))),
+        ("after (1-2j) * S and S * 3 were built", lambda: ((1 - 2j) * S, S * 3)),
+        ("after S.H and S.N were built and applied", lambda: (S.H(np.asarray(S(xs))),
+                                                               S.N(xs))),
+        ("after S * E / E * S were built", lambda: ((S * E) if same else None,
+                                                    (E * S) if same else None)),
+        ("after stacking S with itself", lambda: (L.Vstack([S, S], axis=None),
+                                                  L.Hstack([S, S], axis=None))),
+    ]
+    n = 1
+    for j in case["order"]:
+        tag, f = builders[j]
+        try:
+            out = f()
+            for t in (out if isinstance(out, tuple) else (out,)):
+                if isinstance(t, L.Linop):
+                    t(crandn(rng, tuple(t.ishape)))       # apply the new expression once
+        except Exception as e_:
+            inn = e_
+            while inn.__cause__ is not None:
+                inn = inn.__cause__
+            return violated(sig, "building / applying an expression from S raised %s: %s (%s)"
+                            % (type(inn).__name__, str(inn)[:150], tag), wit,
+                            mech="reuse-raised:" + base)
+        r = check(tag)
+        n += 1
+        if r:
+            return r
+    return held(sig, {"rechecks": n}, n, True)
+
+
 def run_case(case):
     rng = rng_for(case)
+    if case["gen"] == "reuse":
+        return run_reuse(case)
     if case["gen"] == "misfit":
         mrng = np.random.default_rng(case["mseed"])
         thunk, what = _misfit(case["kind"], mrng)
@@ -257,6 +356,8 @@ def run_case(case):
         worst = 0.0
         for k in range(2):
             x = crandn(rng, ish, dt)
+            if k == 1 and len(ish) >= 2:
+                x = np.asfortranarray(x)            # memory-layout variant
             STATE.peak = 0.0
             got = np.asarray(A(x))
             ref, noise = spec.noise(desc, x)
